@@ -4893,7 +4893,8 @@ class ParameterizedMetaclass(type):
             try:
                 mcs.__dict__[attribute_name].__set__(None,value)
             except Exception:
-                if inherited and parameter.default is inherited_default:
+                if (inherited and parameter.default is inherited_default
+                        and value is not inherited_default):
                     # the value was rejected: the class keeps following
                     # the class it inherits the Parameter from
                     type.__delattr__(mcs,attribute_name)
